@@ -126,12 +126,18 @@ theorem C01_one_call (F : CodecFacts) (T : BCD.Tables) (B : HHmmBounds) (layouts
     of encoding/, types/ and uhppote/ is exactly: the two tag regexes and the reflect.Type table of
     the codec, the two card-format regexes, the bind-port mutex, the NOTIMEOUT constant-like value
     and three error values — no cache, pool, counter or buffer that a request could be built from.
-    (Struct fields of the client are covered by the `ops` history phase and the source pins.) -/
+    (Struct fields of the client: `C01_no_client_state` below.) -/
 theorem C01_no_package_state : Gen.Source.packageVars = [
     "encoding/UTO311-L0x/UT0311-L0x.go:var re", "encoding/UTO311-L0x/UT0311-L0x.go:var tBool,tByte,tUint16,…",
     "encoding/UTO311-L0x/UT0311-L0x.go:var vre", "types/card-format.go:var w26", "types/card-format.go:var wAny",
     "uhppote/UT0311.go:var NOTIMEOUT", "uhppote/UT0311.go:var guard", "uhppote/errors.go:var ErrIncorrectController",
     "uhppote/errors.go:var ErrInvalidCard", "uhppote/errors.go:var ErrInvalidListenerAddress"] := by decide
+
+/-- ... and no state in the client or the driver either: no method stores into its receiver (regenerated list of
+    every assignment, increment / decrement, delete or clear rooted at the receiver or at a local naming one of its fields: empty).
+    With `C01_no_package_state` this is the "function of the current call only" half of the statement: there is
+    nowhere for an earlier or a concurrent call to leave anything. -/
+theorem C01_no_client_state : Gen.Source.receiverWrites = [] := by decide
 
 /-- below the driver interface: with the uses of the request parameter regenerated from
     uhppote/UT0311.go (passed to the socket write and to the debug dump, `len`, single-byte reads —
